@@ -40,6 +40,19 @@ func verifC13Set(rs ReplicationSet, err error) string {
 	return fmt.Sprintf("%v maxErr=%d maxZones=%d", out, rs.MaxErrors, rs.MaxUnavailableZones)
 }
 
+// verifC13Stamp picks a registration / read-only change time: half of the time exactly on, one second before or one
+// second after the start of one of the look-back windows the queries below ask for (the boundaries of the cache validity
+// interval), otherwise some minute of the last two hours.
+func verifC13Stamp(rnd *rand.Rand, now time.Time) time.Time {
+	if rnd.Intn(2) == 0 {
+		lbs := []time.Duration{time.Minute, time.Hour}
+		ats := []time.Duration{0, -30 * time.Minute, 10 * time.Minute}
+		start := now.Add(ats[rnd.Intn(3)]).Add(-lbs[rnd.Intn(2)])
+		return start.Add(time.Duration(rnd.Intn(3)-1) * time.Second)
+	}
+	return now.Add(-time.Duration(rnd.Intn(120)) * time.Minute)
+}
+
 func verifC13Answers(r *Ring, now time.Time) map[string]string {
 	bufD, bufH, bufZ := MakeBuffersForGet()
 	out := map[string]string{}
@@ -90,7 +103,7 @@ func TestVerifBounded_C13_History(t *testing.T) {
 			fmt.Printf("BOUNDED-VIOLATION case=%s %s\n", id, msg)
 		}
 	}
-	now := time.Now()
+	now := time.Now().Truncate(time.Second)
 	for run := 0; run < runs; run++ {
 		rnd := rand.New(rand.NewSource(seed*15485863 + int64(run)))
 		zoneAware := rnd.Intn(2) == 0
@@ -111,7 +124,7 @@ func TestVerifBounded_C13_History(t *testing.T) {
 					toks = append(toks, uint32(rnd.Intn(6))*715827882+uint32(len(id))+uint32(id[1]-'0'))
 				}
 				sort.Slice(toks, func(a, b int) bool { return toks[a] < toks[b] })
-				reg := now.Add(-time.Duration(rnd.Intn(120)) * time.Minute)
+				reg := verifC13Stamp(rnd, now)
 				desc.AddIngester(id, "addr-"+id, fmt.Sprintf("z%d", int(id[1]-'0')%2), toks, ACTIVE, reg, rnd.Intn(4) == 0, reg, map[uint64]uint64{1: uint64(rnd.Intn(3))})
 				trace = append(trace, "register "+id)
 			case 2: // heartbeat / state only
@@ -130,7 +143,7 @@ func TestVerifBounded_C13_History(t *testing.T) {
 			case 4: // read-only toggle
 				if e, ok := desc.Ingesters[id]; ok {
 					e.ReadOnly = !e.ReadOnly
-					e.ReadOnlyUpdatedTimestamp = now.Add(-time.Duration(rnd.Intn(90)) * time.Minute).Unix()
+					e.ReadOnlyUpdatedTimestamp = verifC13Stamp(rnd, now).Unix()
 					desc.Ingesters[id] = e
 					trace = append(trace, "readonly "+id)
 				}
@@ -156,7 +169,64 @@ func TestVerifBounded_C13_History(t *testing.T) {
 			}
 		}
 	}
-	fmt.Printf("BOUNDED-CASES name=C13_History n=%d distinct=%d bound=%d runs x 12 ring updates over 4 instances / 2 zones (register, state/heartbeat only, versions only, read-only toggle, removal) with queries in between; answers compared with a fresh client: lookups, read set, counts, shards (sizes 1,2,4; 2 tenants; look-back 1m/1h at 3 query times), token ranges; seed %d\n", cases, cases, runs, seed)
+	fmt.Printf("BOUNDED-CASES name=C13_History n=%d distinct=%d bound=%d runs x 12 ring updates over 4 instances / 2 zones (register, state/heartbeat only, versions only, read-only toggle, removal; registration and read-only change times on/next to the look-back window starts) with queries in between; answers compared with a fresh client: lookups, read set, counts, shards (sizes 1,2,4; 2 tenants; look-back 1m/1h at 3 query times), token ranges; seed %d\n", cases, cases, runs, seed)
+	if fails > 0 {
+		t.Fatalf("%d mismatches", fails)
+	}
+}
+
+// Look-back cache validity boundary: for every offset of a member's registration / read-only change time from the start
+// of the first query's window (-2..+2 s) and every later query time, the long-lived client (cache filled by the first
+// query) answers like a fresh one.
+func TestVerifBounded_C13_LookbackBoundary(t *testing.T) {
+	cases, fails := 0, 0
+	now := time.Now().Truncate(time.Second)
+	lb := time.Minute
+	for _, readOnly := range []bool{true, false} {
+		for _, which := range []string{"readonly-ts", "registered-ts"} {
+			for off := -2; off <= 2; off++ {
+				for _, later := range []time.Duration{time.Second, 2 * time.Second, 10 * time.Minute} {
+					cases++
+					stamp := now.Add(-lb).Add(time.Duration(off) * time.Second)
+					old := now.Add(-3 * time.Hour)
+					desc := NewDesc()
+					for i, id := range []string{"a", "b", "c", "d"} {
+						reg, ro, rots := old, false, time.Time{}
+						if id == "a" {
+							ro = readOnly
+							if which == "readonly-ts" {
+								rots = stamp
+							} else {
+								reg = stamp
+								if ro {
+									rots = old
+								}
+							}
+						}
+						desc.AddIngester(id, "addr-"+id, "z0", []uint32{uint32(i+1) * 1000000, uint32(i+1)*1000000 + 500000000}, ACTIVE, reg, ro, rots, nil)
+					}
+					long := verifC13Client(t, 1, false)
+					long.updateRingState(desc.Clone().(*Desc))
+					fresh := verifC13Client(t, 1, false)
+					fresh.updateRingState(desc.Clone().(*Desc))
+					for _, tenant := range []string{"t1", "t2", "t3"} {
+						for _, size := range []int{1, 2, 3} {
+							_ = long.ShuffleShardWithLookback(tenant, size, lb, now) // fills the cache for window start now-lb
+							la, lerr := long.ShuffleShardWithLookback(tenant, size, lb, now.Add(later)).GetAllHealthy(Reporting)
+							fa, ferr := fresh.ShuffleShardWithLookback(tenant, size, lb, now.Add(later)).GetAllHealthy(Reporting)
+							if a, b := verifC13Set(la, lerr), verifC13Set(fa, ferr); a != b {
+								fails++
+								if fails <= 5 {
+									fmt.Printf("BOUNDED-VIOLATION case=c13:lb-boundary:%s:readOnly=%v:offset=%ds:later=%v:%s:%d long-lived client (cache filled at window start T) answers %s, a fresh client %s\n", which, readOnly, off, later, tenant, size, a, b)
+								}
+							}
+						}
+					}
+				}
+			}
+		}
+	}
+	fmt.Printf("BOUNDED-CASES name=C13_LookbackBoundary n=%d distinct=%d bound=4 instances, one with its registration / read-only change time at offsets -2..+2 s from the first query's window start, later queries +1 s, +2 s, +10 min, 3 tenants x sizes 1..3\n", cases, cases)
 	if fails > 0 {
 		t.Fatalf("%d mismatches", fails)
 	}
